@@ -950,7 +950,7 @@ fn check_parts(q: &J, x: &J, m: &Mat, parts: &PcztParts<LocalNetwork>, deferred:
         errs.push(format!("{who}: sapling value_sum {s_bal} instead of {}", vb["s"]));
     }
     check_orchard_parts(
-        "orchard",
+        &format!("{who}: orchard"),
         false,
         parts.orchard.as_ref(),
         sh["ao"].as_u64().unwrap(),
@@ -961,7 +961,7 @@ fn check_parts(q: &J, x: &J, m: &Mat, parts: &PcztParts<LocalNetwork>, deferred:
         &mut errs,
     );
     check_orchard_parts(
-        "ironwood",
+        &format!("{who}: ironwood"),
         true,
         parts.ironwood.as_ref(),
         sh["ai"].as_u64().unwrap(),
@@ -1802,7 +1802,12 @@ fn main() {
                                 MISMATCHES.fetch_add(1, std::sync::atomic::Ordering::Relaxed);
                                 st.inc("mismatch");
                                 // keep at most two reports per kind of disagreement
-                                let key: String = format!("{}|{}", case["q"]["regime"], errs[0]).chars().filter(|c| !c.is_ascii_digit()).take(70).collect();
+                                let key: String = format!(
+                                    "{} {}|{}",
+                                    case["q"]["regime"].as_str().unwrap(),
+                                    case["q"]["pv"].as_str().unwrap(),
+                                    errs[0].chars().filter(|c| !c.is_ascii_digit()).take(60).collect::<String>()
+                                );
                                 let n = seen.entry(key.clone()).or_insert(0usize);
                                 *n += 1;
                                 if *n <= 2 && bad.len() < 40 {
